@@ -766,6 +766,8 @@ def main(pid, tier, repo=None):
     if tier == "thorough":
         from .. import witness
         witness.rule(ctx, ["AllocHandleIsNotClone", "AllocHandleFieldsArePrivate"])
+    from . import fixguards
+    fixguards.run(ctx, pid)
     ctx.not_decided("leak-freedom through Arc cycles among FrameRenderHandle.refs (argued acyclic: references point to lower frame indices)")
     ctx.not_decided("untracked allocations (frame buffers, Brotli)")
     return ctx.finish(
